@@ -125,6 +125,11 @@ func (i *rwInterceptor) Write(b []byte) (int, error) {
 	if !i.wroteHeader {
 		// if no header has been wrote at this point we aim to return 200
 		i.WriteHeader(http.StatusOK)
+		if i.tx.IsInterrupted() {
+			// the response headers phase just interrupted the transaction: the status has been
+			// overridden and flushed, nothing of the body may follow it
+			return len(b), nil
+		}
 	}
 
 	if i.tx.IsResponseBodyAccessible() && i.tx.IsResponseBodyProcessable() && !i.wroteBufferedBodyToDownstream {
